@@ -1,6 +1,8 @@
 import OpacusLean.Model.Noise
+import OpacusLean.Model.PeekQueue
 /-! driver for C04 (Float):  `reqs <sigma> <clip> <secure 0|1> <nparams> {<rank> <dims…>}`
-reply: the torch.normal requests of one add_noise(): `<std>:<d1xd2…>` separated by spaces (or `none`) -/
+reply: the torch.normal requests of one add_noise(): `<std>:<d1xd2…>` separated by spaces (or `none`)
+`peek <schedule over T F b>`: the hook-based per-layer optimizer's noise decision per physical batch -/
 open Opacus Opacus.Proto Opacus.Noise
 
 partial def parseShapes : Nat → List String → Option (List (List Nat))
@@ -23,6 +25,13 @@ def handle (line : String) : String :=
         " ".intercalate (rs.map (fun r => s!"{floatHex r.std}:{"x".intercalate (r.shape.map toString)}"))
       | none => "bad-op"
     | _, _, _, _ => "bad-op"
+  | ["peek", sched] =>
+    -- schedule: T / F = signal_skip_step(True / False), b = one physical batch; reply: one bit per batch (1 = noise drawn)
+    let ops := sched.toList.filterMap (fun ch => if ch == 'T' then some (PeekQueue.Op.push true) else if ch == 'F' then some (.push false)
+                                                  else if ch == 'b' then some .batch else none)
+    if ops.length != sched.length then "bad-op" else
+    let r := (PeekQueue.run ops).noised
+    if r.isEmpty then "none" else String.ofList (r.map (fun b => if b then '1' else '0'))
   | _ => "bad-op"
 
 def main : IO Unit := runPure handle
